@@ -201,7 +201,8 @@ Section WithOracles.
     end.
 
   (* the *value after the call, and the error if any. A failed conversion leaves a nil raw
-     value (v.raw, err = f(...) assigns the nil result). *)
+     value (v.raw, err = f(...) assigns the nil result); a format outside the nine known ones leaves the
+     value as it was. *)
   (* (a row is a Value too, but is converted like any other data: fix F11) *)
   Definition value_import (n : nat) (raw : rv) (f : format) (typ : gval) (v : rv) : cell * res unit :=
     if rv_is_nil v then (CVal rnil f typ, Ok tt)
@@ -211,7 +212,7 @@ Section WithOracles.
          | _ =>
              match import_scalar f typ v with
              | Ok r => (CVal r f typ, Ok tt)
-             | Err e => (CVal rnil f typ, Err e)
+             | Err e => (CVal (match f with FBad => raw | _ => rnil end) f typ, Err e)   (* (an unknown format assigns nothing: the default arm of the switch) *)
              | Panic => (CVal raw f typ, Panic)
              | Fuel => (CVal raw f typ, Fuel)
              end
